@@ -609,6 +609,45 @@ def check_cancelled_call(ctx, rng):
                 ctx.report(f'commands-not-one-at-a-time:{fe}:after-a-given-up-call', f'{res["fw"].max_inflight} commands in flight at once after a call was given up while {when}', w)
 
 
+def check_second_event_loop(ctx, rng):
+    """One application object is connected, used and disconnected under one event loop, then again under ANOTHER (a program that
+    calls asyncio.run() once per session): concurrent register calls of the second session send their commands and report the
+    forwarder's answers like those of the first."""
+    for fe in ('v2', 'v1'):
+        for rep in range(ctx.n(2, 30)):
+            face = RecFace()
+            the_app = appv2.NDNApp(face=face) if fe == 'v2' else appv1.NDNApp(face=face, keychain=KeychainDigest())
+            for session in (1, 2):
+                res = {}
+
+                async def main(S):
+                    fw = Forwarder(face, fe, ['200'] * 20, ctx, rng, S)
+                    main_task = asyncio.ensure_future(the_app.main_loop())
+                    await asyncio.sleep(0.005)
+                    calls = [the_app.register([C(b's%d' % session), C(b'p%d' % j)]) if fe == 'v2' else the_app.register([C(b's%d' % session), C(b'p%d' % j)], None) for j in range(3)]
+                    res['rets'] = await asyncio.gather(*calls, return_exceptions=True)
+                    res['cmds'] = len(fw.commands)
+                    res['inflight'] = fw.max_inflight
+                    the_app.shutdown()
+                    await asyncio.wait_for(main_task, 5)
+                S = vtime.run(main)
+                w = {'frontend': fe, 'session': session, 'results': [repr(r)[:80] for r in res.get('rets', [])]}
+                ctx.case(('second-loop', fe, session, rep % 2), nontrivial=True)
+                ctx.event(f'session-{session}-under-its-own-event-loop')
+                if S.result != 'ok':
+                    ctx.report(f'second-loop-scenario-{S.result}:{fe}', f'{S.error!r}', w)
+                    break
+                for r in res.get('rets', []):
+                    if isinstance(r, BaseException):
+                        ctx.report(f'register-raises:{fe}:{type(r).__name__}:second-event-loop', f'register raised {r!r} in session {session} of one application object (each session under its own event loop)', w)
+                    elif r is not True:
+                        ctx.report(f'register-result-wrong:{fe}:second-event-loop', f'register returned {r!r} for a 200 answer in session {session}', w)
+                if res.get('cmds') != 3:
+                    ctx.report(f'command-count:{fe}:second-event-loop', f'3 calls produced {res.get("cmds")} commands in session {session}', w)
+                if res.get('inflight', 0) > 1:
+                    ctx.report(f'commands-not-one-at-a-time:{fe}:second-event-loop', f'{res.get("inflight")} commands in flight at once in session {session}', w)
+
+
 def check_parse_response(ctx, rng):
     for i in range(ctx.n(400, 400000)):
         status = rng.choice([0, 200, 400, 403, 404, 500, 65535, 2**32, rng.getrandbits(16)])
@@ -734,10 +773,12 @@ def run(ctx):
             check_routes(ctx, rng, fe, variant)
     check_parse_response(ctx, rng)
     check_cancelled_call(ctx, rng)
+    check_second_event_loop(ctx, rng)
     for k in ['call-given-up-waiting-for-its-turn', 'call-given-up-waiting-for-the-answer', 'call-given-up-wait_for-expires', 'exchange-with-strict-application-validator', 'parse-response-with-unknown-elements', 'caller-edits-name-list-after-call', 'exchange', 'concurrent-exchange', 'route-connection', 'reconnect-within-one-millisecond', 'parse-response'] + [f'reply-{r}' for r in REPLIES]:
         ctx.need_event(k)
     ctx.need_event('exchange-beside-another-application-of-the-process')
     ctx.need_event('exchange-under-a-coarse-clock')
     ctx.need_event('prefix-given-as-a-one-shot-iterator')
+    ctx.need_event('session-2-under-its-own-event-loop')
     ctx.assumptions = ['a 200 reply whose signature is bad counts as success in the current front-end (its commands use pass_all) and as failure in the legacy one',
                        'jitter clock: non-decreasing, 0..0.6 ms per reading (a legal wall clock); coarse clock: advances in steps of 1/64 s']
